@@ -1,9 +1,10 @@
 SPECIFICATION Spec
-CONSTANTS FirstYear = 2014 LastYear = 2022 Tol = 2742 SmoothMax = 500000
+CONSTANTS FirstYear = 2014 LastYear = 2022 BaseDat = 35 Tol = 2742 SmoothMax = 500000
 INVARIANT TypeOK
 INVARIANT DoyMatchesClosedForm
 INVARIANT DayNoMatchesClosedForm
 INVARIANT LeapOnlyAtMidnight
 INVARIANT EmitDay
 INVARIANT ContinuityOK
+INVARIANT TtBoundariesPosed
 PROPERTY DoyRestartsOnlyAtNewYear
